@@ -333,7 +333,7 @@ def check_none_tests(ctx, res: Result, dotted: str, params=TRUTHY_SENSITIVE, rul
         for atom, _ in _atoms(t, True):
             if isinstance(atom, ast.Name) and atom.id in watch:
                 count += 1
-                res.violation(rule, f, norm(n), atom.id, f"parameter `{atom.id}` is tested by truthiness: the legitimate value 0 is treated like None (filter / seed silently dropped)", loc(v.fi, n))
+                res.violation(rule, f, norm(n), atom.id, f"parameter `{atom.id}` is tested by truthiness: the legitimate value 0 is treated like None (filter / seed silently dropped)" if atom.id not in ("metadata", "weight", "weights") else f"parameter `{atom.id}` is tested by truthiness: an explicitly supplied empty / zero value ({{}} / 0) is treated like an omitted argument, so it does not replace what is stored", loc(v.fi, n))
 
     for n in walk_no_nested(v.fi.node):
         if isinstance(n, (ast.If, ast.While)):
